@@ -27,6 +27,7 @@ class Lift(ast.NodeTransformer):
         "sum": "__sym_sum__",
         "bool": "__sym_bool__",
         "divmod": "__sym_divmod__",
+        "format": "__sym_format__",
     }
 
     def visit_Compare(self, node):
@@ -287,7 +288,21 @@ def sym_isinstance(x, t):
     return _isinstance(x, t)
 
 
+def sym_format(v, spec=""):
+    """format(v, 'x'/'d') of a symbolic integer that is provably a single digit becomes a symbolic character."""
+    if _isinstance(v, SymInt):
+        import z3
+
+        from .text import _sb
+
+        if spec in ("x", "d", "") and _sb(z3.And(v.z >= 0, v.z < (16 if spec == "x" else 10))):
+            return SymText("str", [SymInt(z3.If(v.z < 10, 48 + v.z, 87 + v.z))])
+        return format(v.__index__(), spec)
+    return format(v, spec)
+
+
 HELPERS = {
+    "__sym_format__": sym_format,
     "__sym_join__": text.sym_join,
     "__sym_in__": sym_in,
     "__sym_not__": sym_not,
